@@ -422,8 +422,9 @@ def model(world, gene_obj, reads, lo, hi, multi_sites):
             elif o == "I":
                 if not r.get("noqual"):
                     prev_q = sum(r["quals"][q : q + k]) / k
-                if pos in phaseable:
-                    rshown.setdefault(pos, set()).add("ins" + r["seq"][q : q + k])
+                # an insertion sits between pos-1 and pos; the catalogue anchors it at the base before
+                if pos - 1 in phaseable:
+                    rshown.setdefault(pos - 1, set()).add("ins" + r["seq"][q : q + k])
                 q += k
             elif o == "S":
                 q += k
